@@ -180,7 +180,7 @@ def audit_axioms(prop_id, log):
     ok = 0
     problems = []
     # outputs: "'X' depends on axioms: [a, b]" or "'X' does not depend on any axioms"
-    blocks = re.findall(r"'([^']+)' (does not depend on any axioms|depends on axioms: \[([^\]]*)\])", out, re.S)
+    blocks = re.findall(r"'(\S+)' (does not depend on any axioms|depends on axioms: \[([^\]]*)\])", out, re.S)
     seen = {}
     for name, _, axs in blocks:
         axl = [a.strip() for a in axs.replace("\n", " ").split(",") if a.strip()]
